@@ -166,7 +166,7 @@ func (sw *SingleAddressWallet) Balance() (balance Balance, err error) {
 	sw.mu.Lock()
 	defer sw.mu.Unlock()
 
-	_, outputs, err := sw.store.UnspentSiacoinElements()
+	tip, outputs, err := sw.store.UnspentSiacoinElements()
 	if err != nil {
 		return Balance{}, fmt.Errorf("failed to get unspent outputs: %w", err)
 	}
@@ -212,7 +212,10 @@ func (sw *SingleAddressWallet) Balance() (balance Balance, err error) {
 		}
 	}
 
-	bh := sw.cm.TipState().Index.Height
+	// maturity is judged at the height the outputs were read at, as
+	// SpendableOutputs and input selection do; the chain manager may be ahead
+	// of the store
+	bh := tip.Height
 	for _, sco := range outputs {
 		if sco.MaturityHeight > bh {
 			balance.Immature = balance.Immature.Add(sco.SiacoinOutput.Value)
